@@ -276,9 +276,10 @@ def run(ctx, rep):
         for bb, i, s in fc.mir.stmts():
             if s.kind == "assign" and s.rv is not None and s.rv.kind == "binop" and s.rv.op.startswith("Add"):
                 e = fc.rv_expr(s)
-                if E.strip_casts(e[3]) == ("const", 1) and (E.mentions_call(e[2], "len") or E.mentions_call(e[2], "count")):
-                    detail = fc.show(e[2])[:120]
-                    ok = E.mentions_call(e[2], "encode_utf16") and not E.mentions_call(e[2], "chars")
+                one, other = (e[3], e[2]) if E.strip_casts(e[3]) == ("const", 1) else (e[2], e[3])
+                if E.strip_casts(one) == ("const", 1) and (E.mentions_call(other, "len") or E.mentions_call(other, "count")):
+                    detail = fc.show(other)[:120]
+                    ok = E.mentions_call(other, "encode_utf16") and not E.mentions_call(other, "chars")
         adder(rep, b)("R09j", "wstring length prefix = number of UTF-16 code units + 1", ok,
                       "length is computed from %s: the body is written as encode_utf16() units, so a character outside the BMP makes the announced length too short" % (detail or "?"))
     # R09e
